@@ -115,7 +115,10 @@ func (t *c11Truth) allowed(typ, prefix string) bool {
 	return false
 }
 
-var c11Paths = []string{"/v1/chat/completions", "/v1/completions", "/api/generate", "/api/chat", "/v1/embeddings", "/foo/bar", "/v1/messages"}
+var c11Paths = []string{"/v1/chat/completions", "/v1/completions", "/api/generate", "/api/chat", "/v1/embeddings", "/foo/bar", "/v1/messages",
+	// documented native paths that Olla answers itself today (501) or merely relays: if one of them is ever
+	// implemented, its candidates must come from the provider too
+	"/api/show", "/api/embed", "/api/pull", "/api/ps", "/v1/responses", "/tokenize"}
 
 func (propC11) Gen(seed uint64, tier string, idx int) *Plan {
 	t := c11Load()
@@ -289,7 +292,8 @@ func (propC11) Check(r *Run) []Violation {
 			if c.Status >= 200 && c.Status < 300 {
 				add("C11/success-without-provider-endpoint", "op %d %s got status %d although no healthy endpoint of that provider exists", c.OpID, op.Path, c.Status)
 			}
-		} else if len(exs) == 0 && c.Status >= 400 && op.Body.Model == "m1" && c11Stable(r, allowedHealthy, c) {
+		} else if len(exs) == 0 && c.Status >= 400 && c.Status != 501 && op.Body.Model == "m1" && c11Stable(r, allowedHealthy, c) {
+			// (501 is Olla declining an operation it does not proxy at all, e.g. ollama's model management)
 			// (a request whose attempts were killed by the simulator has exchanges, so it never gets here)
 			add("C11/not-served-although-provider-endpoint-healthy", "op %d %s got status %d (%.120q); healthy endpoints of that provider: %v", c.OpID, op.Path, c.Status, c.Body, allowedHealthy)
 		}
